@@ -604,6 +604,57 @@ func genAdvertise(repo string) *leanFile {
 			"advertise() starts schedule, multicast, Listen, linkStateWatcher")
 	}
 
+	// the multicast loop waits on a FRESH timer per wait: its select has the cases `<-ctx.Done()` and
+	// `<-time.After(multicastDelay(…))` and no other (a timer kept across waits or incarnations can
+	// deliver a stale tick; the virtual-time scenarios run with asynctimerchan=0 and cannot see that)
+	if fd := fl.fn("Advertiser.multicast"); fd != nil {
+		nSel, nWait, ok := 0, 0, true
+		ast.Inspect(fd.Body, func(n ast.Node) bool {
+			sel, isSel := n.(*ast.SelectStmt)
+			if !isSel {
+				return true
+			}
+			nSel++
+			var kinds []string
+			for _, c := range sel.Body.List {
+				cc := c.(*ast.CommClause)
+				kind := "other"
+				switch x := cc.Comm.(type) {
+				case nil:
+					kind = "default"
+				case *ast.ExprStmt:
+					if u, isRecv := x.X.(*ast.UnaryExpr); isRecv && u.Op == token.ARROW {
+						src := exprString(u.X)
+						switch {
+						case src == "ctx.Done()":
+							kind = "done"
+						case strings.HasPrefix(src, "time.After(multicastDelay(") && strings.HasSuffix(src, "))"):
+							kind = "after"
+						}
+					}
+				case *ast.SendStmt:
+					if exprString(x.Chan) == "ipC" {
+						kind = "send"
+					}
+				}
+				kinds = append(kinds, kind)
+			}
+			sort.Strings(kinds)
+			switch strings.Join(kinds, " ") {
+			case "default done", "done send":
+			case "after done":
+				nWait++
+			default:
+				ok = false
+			}
+			return true
+		})
+		l.Bool("multicastWaitsOnFreshTimer", ok && nWait == 1,
+			"multicast(): its selects are {<-ctx.Done(), default}, {ipC <- …, <-ctx.Done()} and exactly one {<-ctx.Done(), <-time.After(multicastDelay(…))}")
+	} else {
+		failf("advertise.go: Advertiser.multicast not found")
+	}
+
 	// sendGate protocol: the statements of enter() and close(), in order (printed source)
 	for _, fnName := range []string{"sendGate.enter", "sendGate.close", "sendGate.leave"} {
 		if fd := fl.fn(fnName); fd != nil {
